@@ -2,7 +2,7 @@
 //! framing layer rejects an oversized declared frame instead of waiting for it).
 use crate::common::*;
 use crate::props::c11;
-use crate::props::c12::{self, CI};
+use crate::props::c12::{self, transport_client, CI};
 use opcua::core::comms::message_chunk::{MessageChunkType, MessageIsFinalType};
 use opcua::server::comms::tcp_transport::TcpTransport;
 use opcua::types::*;
@@ -82,16 +82,16 @@ impl Prop for C10 {
 
     fn gen(&self, rng: &mut Rng, n: usize, tier: Tier, out: &mut Vec<String>) {
         for _ in 0..n {
-            if rng.chance(2, 3) {
-                gen_srv(rng, tier, out)
-            } else {
-                gen_rx(rng, out)
+            match rng.weighted(&[5, 3, 2]) {
+                0 => gen_srv(rng, tier, out),
+                1 => gen_rx(rng, out),
+                _ => transport_client::gen_cli(rng, true, out),
             }
         }
     }
 
     fn runner(&self) -> Box<dyn Runner> {
-        Box::new(R { srv: None, rx: c11::R::new(), rx_max: 0, rx_bytes: 0 })
+        Box::new(R { srv: None, rx: c11::R::new(), rx_max: 0, rx_bytes: 0, cli: None })
     }
 }
 
@@ -109,6 +109,7 @@ struct R {
     rx: c11::R,
     rx_max: usize,
     rx_bytes: usize,
+    cli: Option<transport_client::Cli>,
 }
 
 impl Runner for R {
@@ -137,6 +138,14 @@ impl Runner for R {
                 self.srv = Some(Srv { t, closed: false, stream_off: 0, body: c12::get_endpoints_bytes(), max_chunks, max_msg });
                 ("ok".to_string(), Verdict::Ok)
             }
+            ["reset", "cli", mp, ch] => {
+                self.cli = Some(transport_client::Cli::new(mp.parse().unwrap(), ch.parse().unwrap()));
+                ("ok".to_string(), Verdict::Ok)
+            }
+            ["req"] | ["cchunk", ..] => match self.cli.as_mut() {
+                Some(c) => c.step(toks),
+                None => ("bad-op".to_string(), Verdict::Ok),
+            },
             ["reset", "rx", mm, _] => {
                 self.rx_max = mm.parse().unwrap();
                 self.rx_bytes = 0;
